@@ -71,4 +71,9 @@ PROPS = {
         'decided': 'path_to_function / path_to_function_inner: a returned path addresses, in the given program, a subtree whose tree hash equals the symbol-table key (for every program and hash); rewrite_in_program builds exactly (a (a (q . path/2) env) (c env 1))',
         'not_covered': ['add_defun records hash(code) -> name and the argument list (HashMap-heavy, not under contract)', 'later passes leave quoted bodies alone', 'every reachable non-inline function has an entry', 'extracted code computes what the source function computes'],
     },
+    'C01': {
+        'units': ['envaddr'],
+        'decided': 'environment addressing only: create_name_lookup_ returns a path that selects, from ANY argument tree, exactly the value the parameter pattern binds the name to under consensus destructuring (first match, left before right, (@ n sub) captures), and fails only when the pattern does not mention the name; build_tree / compute_code_shape / compute_env_shape lay the helper names out left to right, each once, with the arguments on the right',
+        'not_covered': ['desugaring of let / assign / lambda', 'inlining', 'renaming', 'macro expansion', 'finalize_env_', 'start_codegen / codegen as a whole', 'that compiled code computes what the source means'],
+    },
 }
